@@ -379,13 +379,13 @@ theorem clSignWith_keyshareP {pk : PublicKey} {order u : Int} {ms : List Int} {v
 /-! ### a toy key for non-vacuity examples: `n = 7·11`, `QR_77` has exponent `p'q' = 3·5 = 15` -/
 
 /-- toy parameters: `e ∈ [8, 12]`; `256 + LvPrime ≤ LvPrimeCommit`. -/
-def toyParams : SysParams :=
+def toyParamsCL : SysParams :=
   { LePrime := 3, Lh := 8, Lm := 8, Ln := 7, Lstatzk := 1, Le := 4, LeCommit := 12, LmCommit := 17,
     LRA := 8, LsCommit := 18, Lv := 20, LvCommit := 29, LvPrime := 8, LvPrimeCommit := 300 }
 
 def toyKey : PublicKey :=
   { n := 77, z := 9, s := 4, g := none, h := none, r := [16, 25, 36], counter := 0,
-    params := toyParams, hasEcdsa := false, issuer := "toy" }
+    params := toyParamsCL, hasEcdsa := false, issuer := "toy" }
 
 theorem toyKey_inGroup : toyKey.InGroup 15 := by
   refine ⟨by decide, by decide, by decide, by decide, ?_⟩
